@@ -9,6 +9,7 @@ CONSTANTS
   CopyArgs = TRUE
   HtmlDep = FALSE
   LazyInit = FALSE
+  PoolBuf = FALSE
 VIEW View
 INVARIANTS Deterministic SharedReadOnly NoBlocking LockSane
 CHECK_DEADLOCK TRUE
